@@ -126,6 +126,15 @@ def fam_polygon_rel(ctx, rng):
     gt = a.does_polygon_touch(b, TOL)
     if bool(gt) != touch:
         ctx.violation('does_polygon_touch:%s' % mode, 'does_polygon_touch=%r expected %r' % (gt, touch), desc)
+    # the relation is symmetric: asked from the other polygon (e.g. from the inner one of a nested pair) the answer is the same
+    gt2 = b.does_polygon_touch(a, TOL)
+    if bool(gt2) != touch:
+        ctx.violation('does_polygon_touch:%s:swapped' % mode, 'b.does_polygon_touch(a)=%r expected %r' % (gt2, touch), desc)
+    # and the relationship seen from b
+    exp_b = 1 if ca <= cb else (-1 if not (ca & cb) else 0)
+    got_b = b.polygon_relationship(a, TOL)
+    if got_b != exp_b:
+        ctx.violation('polygon_relationship:%s:swapped:expected_%d' % (mode, exp_b), 'b.polygon_relationship(a)=%r expected %r' % (got_b, exp_b), desc)
     if exp == 1 and not a.is_polygon_inside(b) and mode == 'nested':
         ctx.violation('is_polygon_inside:nested', 'strictly nested polygon not reported inside', desc)
     if mode == 'disjoint' and not a.is_polygon_outside(b):
